@@ -240,17 +240,57 @@ def oracle(c: Case) -> Optional[dict]:
     return None
 
 
+def check_odd_values() -> List[dict]:
+    """Values that are themselves library objects (an Invalid, a Valid, a validator) are values like any other:
+    AlwaysValid and wrappers around it hand them back unchanged, inside a Valid."""
+    from koda_validate import AlwaysValid, ListValidator, OptionalValidator, UnionValidator, always_valid
+    bad = []
+    odd = [Invalid(TypeErr(int), "x", always_valid), Valid(3), always_valid, TypeErr(str)]
+    vs = [always_valid, AlwaysValid(), OptionalValidator(always_valid), UnionValidator.untyped(always_valid),
+          ListValidator(always_valid)]
+    for v in vs:
+        for o in odd:
+            x = [o] if isinstance(v, ListValidator) else o
+            for mode in ("sync", "async"):
+                try:
+                    r = _call(v, mode, x)
+                except Exception as e:  # noqa
+                    r = e
+                ok = type(r) is Valid and (r.val is x or (isinstance(v, ListValidator) and type(r.val) is list and len(r.val) == 1 and r.val[0] is o))
+                if not ok:
+                    bad.append({"signature": "C05:always-valid", "kind": "oracle",
+                                "what": f"{v!r} ({mode}) on the value {x!r} returned {r!r}; it accepts every value unchanged",
+                                "replay_case": {"direct": "odd-values"}})
+                    return bad
+    return bad
+
+
 def check_result_map() -> List[dict]:
     """Valid.map / Invalid.map (koda_validate/valid.py), checked directly."""
     bad = []
     inv = Invalid(TypeErr(int), "x", None)  # type: ignore
-    for val in (1, "a", None, [1], {"k": 2}):
+    for val in (1, True, 2.0, "a", None, [1], {"k": 2}):
         f = lambda z: (z, "mapped")
         r0 = Valid(val)
         r = r0.map(f)
         if not (type(r) is Valid and r.val == (val, "mapped")):
             bad.append({"signature": "C05:valid-map", "kind": "oracle", "what": f"Valid({val!r}).map(f) = {r!r}",
                         "replay_case": {"direct": "result-map"}})
+        # the new payload is what the function returned - the very object, also when it equals the old one
+        for conv in (float, int, str, (lambda z: list(z) if isinstance(z, list) else z)):
+            made = []
+            def g(z, conv=conv, made=made):
+                try:
+                    y = conv(z)
+                except Exception:  # noqa
+                    y = ("unconvertible", z)
+                made.append(y)
+                return y
+            rr = Valid(val).map(g)
+            if not (type(rr) is Valid and made and rr.val is made[-1]):
+                bad.append({"signature": "C05:valid-map", "kind": "oracle",
+                            "what": f"Valid({val!r}).map(f) holds {getattr(rr, 'val', rr)!r} ({type(getattr(rr, 'val', rr)).__name__}), f returned {made[-1] if made else None!r} ({type(made[-1]).__name__ if made else None})",
+                            "replay_case": {"direct": "result-map"}})
         # the result that was mapped is still the result of the validation it came from
         if r0.val is not val:
             bad.append({"signature": "C05:valid-map-receiver", "kind": "oracle",
@@ -309,6 +349,7 @@ def wrapper_histories(tier: str, rng: random.Random):
 def run(tier: str, rng: random.Random, proof_ok: bool) -> dict:
     rep = run_families("C05", cases(tier, rng), rng, oracle, nontrivial)
     rep["violations"] += check_result_map()
+    rep["violations"] += check_odd_values()
     bad, n = wrapper_histories(tier, rng)
     rep["violations"] += bad
     rep["coverage"]["wrapper_histories_on_one_instance"] = n
@@ -318,6 +359,12 @@ def run(tier: str, rng: random.Random, proof_ok: bool) -> dict:
 def replay(path: str) -> int:
     import json
     rc = json.load(open(path)).get("replay_case")
+    if isinstance(rc, dict) and rc.get("direct") == "odd-values":
+        bad = check_odd_values()
+        for b in bad:
+            print("property violated:", b["what"])
+        print("property holds for library objects as values" if not bad else "")
+        return 1 if bad else 0
     if isinstance(rc, dict) and rc.get("direct") == "result-map":
         bad = check_result_map()
         for b in bad:
